@@ -4,12 +4,13 @@ import Driver.Cmds
 import Driver.CmdsIdl
 import Driver.CmdsLife
 import Driver.CmdsGen
+import Driver.CmdsStub
 import Driver.CmdsMisc
 import Driver.CmdsConc
 open Driver
 
 /-- all command tables (one per `Driver/Cmds*.lean`) -/
-def allCommands : List (String × P String) := Driver.table ++ Driver.IdlCmd.table ++ Driver.Misc.table ++ Driver.Gen.table ++ Driver.Life.table ++ Driver.Conc.table
+def allCommands : List (String × P String) := Driver.table ++ Driver.IdlCmd.table ++ Driver.Misc.table ++ Driver.Gen.table ++ Driver.Life.table ++ Driver.Conc.table ++ Driver.Stub.table
 
 def runCmd : P String := do
   let c ← tok
